@@ -68,13 +68,22 @@ type B interface {
 // version 2 of interface A (a method added, a parameter type changed)
 var cliSrcV2 = strings.Replace(cliSrcV1, "M(x foo.T, s string) error\n", "M(x *foo.T, s string) error\n\tM2(n int)\n", 1)
 
-// sorted after x_moq.go; aliases one of the two same-named packages
+// sorted after x_moq.go; one of two same-named packages (v1/api, v2/api) is aliased here
 const cliSrcZ = `package cli
 
-import zfoo "example.com/m/a/foo"
+import zapi "example.com/m/v2/api"
 
 type Z interface {
-	Zed(z zfoo.T) zfoo.T
+	Zed(z zapi.T) zapi.T
+}
+`
+
+const cliSrcY = `package cli
+
+import "example.com/m/v1/api"
+
+type Y interface {
+	Why(y api.T) api.T
 }
 `
 
@@ -201,7 +210,7 @@ func (fx *Fixture) newSandbox(work string, version int) *e5Sandbox {
 	sandboxMu.Unlock()
 	root := filepath.Join(work, "sb", fmt.Sprint(n))
 	writeFile(filepath.Join(root, "go.mod"), "module "+modPath+"\n\ngo 1.24\n")
-	for _, d := range []string{"~/a/foo", "~/b/foo", "~/d/bar"} {
+	for _, d := range []string{"~/a/foo", "~/b/foo", "~/d/bar", "~/v1/api", "~/v2/api"} {
 		writeFile(filepath.Join(root, d[2:], "p.go"), depBody(depName(d)))
 	}
 	pkg := filepath.Join(root, "s", "cli")
@@ -212,6 +221,7 @@ func (fx *Fixture) newSandbox(work string, version int) *e5Sandbox {
 	writeFile(filepath.Join(pkg, "a.go"), src)
 	writeFile(filepath.Join(pkg, "b.go"), cliSrcB)
 	writeFile(filepath.Join(pkg, "zz.go"), cliSrcZ)
+	writeFile(filepath.Join(pkg, "zy.go"), cliSrcY)
 	writeFile(filepath.Join(pkg, "c.go"), cliSrcC)
 	// bystanders next to the usual -out names: a run must not touch them
 	writeFile(filepath.Join(pkg, "out_moq_test.go.tmp"), "bystander\n")
